@@ -401,3 +401,165 @@ def mutator_call_census(fe, modname, allowed_calls, mutators):
         out.append(dict(name='%s/calls[no-ir-mutator-except-allowed]' % qual, function=qual, lineno=fn.lineno, kind='proof',
                         status='proved' if not bad else 'failed', secs=0, backend='syntactic', reason='; '.join(bad[:3])))
     return out
+
+
+MUTABLE_CTORS = {'dict', 'list', 'set', 'defaultdict', 'OrderedDict', 'deque', 'Counter'}
+
+
+def _is_mutable_literal(v):
+    return isinstance(v, (ast.Dict, ast.List, ast.Set, ast.ListComp, ast.DictComp, ast.SetComp)) or (
+        isinstance(v, ast.Call) and isinstance(v.func, (ast.Name, ast.Attribute))
+        and (v.func.id if isinstance(v.func, ast.Name) else v.func.attr) in MUTABLE_CTORS)
+
+
+def _writes_through(fn, name):
+    """does the function body store into / mutate in place the container bound to `name` (not merely rebind the name)?"""
+    for n in ast.walk(fn):
+        targets = []
+        if isinstance(n, ast.Assign):
+            targets = n.targets
+        elif isinstance(n, (ast.AugAssign, ast.AnnAssign)):
+            targets = [n.target]
+        elif isinstance(n, ast.Delete):
+            targets = n.targets
+        elif isinstance(n, ast.Call) and isinstance(n.func, ast.Attribute) and n.func.attr in MUTATORS:
+            targets = [ast.Subscript(value=n.func.value, slice=ast.Constant(0), ctx=ast.Store())]
+        for t in targets:
+            for tt in (t.elts if isinstance(t, (ast.Tuple, ast.List)) else [t]):
+                if isinstance(tt, ast.Name):
+                    continue
+                if root_name(tt) == name:
+                    return n.lineno
+    return None
+
+
+def hidden_state_census(fe, modname, allowed_globals=()):
+    """hidden-state[<module>]: results must depend on the arguments only, so a module keeps no state between calls:
+    (a) no parameter with a mutable default value ({} / [] / set() ...) is written through in the function body (the default
+        object is shared by all calls);
+    (b) no module-level mutable container is written from inside a function (memo tables, registries), except the names in
+        `allowed_globals`.
+    Syntactic, from the real AST."""
+    m = fe.module(modname)
+    tree = m.tree if hasattr(m, 'tree') else None
+    if tree is None:
+        import os
+        path = os.path.join(fe.repo, *modname.split('.')) + '.py'
+        tree = ast.parse(open(path).read())
+    bad = []
+    globs = set()
+    for s in tree.body:
+        if isinstance(s, ast.Assign) and _is_mutable_literal(s.value):
+            for t in s.targets:
+                if isinstance(t, ast.Name):
+                    globs.add(t.id)
+    funcs = [n for n in ast.walk(tree) if isinstance(n, (ast.FunctionDef, ast.AsyncFunctionDef))]
+    for fn in funcs:
+        a = fn.args
+        pos = a.posonlyargs + a.args
+        for arg, d in list(zip(pos[len(pos) - len(a.defaults):], a.defaults)) + [
+                (k, d) for k, d in zip(a.kwonlyargs, a.kw_defaults) if d is not None]:
+            if _is_mutable_literal(d):
+                ln = _writes_through(fn, arg.arg)
+                if ln:
+                    bad.append('line %d: %s() writes through its mutable default argument %s' % (ln, fn.name, arg.arg))
+        local = {x.arg for x in pos + a.kwonlyargs} | {
+            t.id for n in ast.walk(fn) if isinstance(n, ast.Assign) for t in n.targets if isinstance(t, ast.Name)}
+        declared_global = {nm for n in ast.walk(fn) if isinstance(n, ast.Global) for nm in n.names}
+        for g in globs - set(allowed_globals):
+            if g in local and g not in declared_global:
+                continue
+            ln = _writes_through(fn, g)
+            if ln:
+                bad.append('line %d: %s() writes the module-level container %s' % (ln, fn.name, g))
+    return [dict(name='%s/hidden-state[no-shared-mutable-state]' % modname, function=modname, lineno=0, kind='proof',
+                 status='proved' if not bad else 'failed', secs=0, backend='syntactic', reason='; '.join(bad[:3]))]
+
+
+SWITCH_WIRING = [
+    # (command-line destination, configuration attribute, kind)
+    ('disable_use_site_variance', ('dis', 'use_site_variance'), 'copy'),
+    ('disable_contravariance_use_site', ('dis', 'use_site_contravariance'), 'copy'),
+    ('disable_bounded_type_parameters', ('prob', 'bounded_type_parameters'), 'zero'),
+    ('disable_parameterized_functions', ('prob', 'parameterized_functions'), 'zero'),
+]
+
+
+def switch_wiring_obligations(repo):
+    """wiring[<flag>]: the module-level configuration block of src/args.py is executed symbolically (assignments to
+    cfg.<group>.<attr> from args.<dest> / constants under `if args.<dest>` tests; z3 decides): after it, the two boolean
+    switches equal their command-line flags and a given --disable-... flag leaves the corresponding probability at 0,
+    for every combination of the flags.  (That argparse stores --disable-x-y in args.disable_x_y is trusted.)"""
+    import os
+    t0 = time.time()
+    tree = ast.parse(open(os.path.join(repo, 'src', 'args.py')).read())
+    args = {}
+    state = {}
+
+    def arg(name):
+        if name not in args:
+            args[name] = z3.Bool('args.' + name)
+        return args[name]
+
+    def cfg_key(t):
+        # cfg.<group>.<attr>
+        if isinstance(t, ast.Attribute) and isinstance(t.value, ast.Attribute) and isinstance(t.value.value, ast.Name) \
+                and t.value.value.id == 'cfg':
+            return (t.value.attr, t.attr)
+        return None
+
+    def cur(key):
+        if key not in state:
+            state[key] = z3.Bool('cfg0.%s.%s' % key) if key[0] == 'dis' else z3.Int('cfg0.%s.%s' % key)
+        return state[key]
+
+    def val(v, key):
+        if isinstance(v, ast.Attribute) and isinstance(v.value, ast.Name) and v.value.id == 'args':
+            a = arg(v.attr)
+            return a if key[0] == 'dis' else z3.If(a, z3.IntVal(1), z3.IntVal(0))
+        if isinstance(v, ast.Constant) and isinstance(v.value, bool):
+            return z3.BoolVal(v.value) if key[0] == 'dis' else z3.IntVal(int(v.value))
+        if isinstance(v, ast.Constant) and isinstance(v.value, (int, float)):
+            return z3.IntVal(0) if v.value == 0 else z3.Int('nonzero!%d' % v.lineno) if key[0] != 'dis' else z3.BoolVal(bool(v.value))
+        return z3.FreshConst(z3.BoolSort() if key[0] == 'dis' else z3.IntSort(), 'unknown')
+
+    def cond(test):
+        if isinstance(test, ast.Attribute) and isinstance(test.value, ast.Name) and test.value.id == 'args':
+            return arg(test.attr)
+        if isinstance(test, ast.UnaryOp) and isinstance(test.op, ast.Not):
+            return z3.Not(cond(test.operand))
+        if isinstance(test, ast.BoolOp):
+            cs = [cond(x) for x in test.values]
+            return z3.And(*cs) if isinstance(test.op, ast.And) else z3.Or(*cs)
+        return z3.FreshConst(z3.BoolSort(), 'cond')
+
+    def run(stmts, pc):
+        for s in stmts:
+            if isinstance(s, ast.Assign):
+                for t in s.targets:
+                    k = cfg_key(t)
+                    if k is not None:
+                        state[k] = z3.If(pc, val(s.value, k), cur(k))
+            elif isinstance(s, ast.If):
+                c = cond(s.test)
+                run(s.body, z3.And(pc, c))
+                run(s.orelse, z3.And(pc, z3.Not(c)))
+    run(tree.body, z3.BoolVal(True))
+    out = []
+    for dest, key, kind in SWITCH_WIRING:
+        final = cur(key)
+        a = arg(dest)
+        goal = (final == a) if kind == 'copy' else z3.Implies(a, final == 0)
+        sol = z3.Solver()
+        sol.set('timeout', 5000)
+        sol.add(z3.Not(goal))
+        r = sol.check()
+        model = ''
+        if r == z3.sat:
+            m = sol.model()
+            model = ', '.join('%s=%s' % (d.name(), m[d]) for d in m.decls() if d.name().startswith('args.'))
+        out.append(dict(name='src.args/wiring[--%s]' % dest.replace('_', '-'), function='src.args', lineno=0, kind='proof',
+                        status='proved' if r == z3.unsat else 'failed', secs=time.time() - t0, backend='z3',
+                        reason='' if r == z3.unsat else 'cfg.%s.%s is not %s for the flags %s' % (
+                            key[0], key[1], 'the flag' if kind == 'copy' else '0 when the flag is given', model)))
+    return out
